@@ -15,7 +15,9 @@ package main
 //	hup2      two new versions and two SIGHUPs back to back
 //	feed      the reload in progress (if any) reads the version that was newest when the harness
 //	          attached to it, and completes
-//	feedbad   it reads garbage instead (only while no generation bump is outstanding)
+//	feedbad   it reads garbage instead
+//	feedempty it reads a file that parses but defines no usable generation: registrations may be
+//	          refused (500) from then until a valid version has been read and is served
 //	req-old / req-cur / req-v4 / req-v6
 //	          one registration: dual-stack from a client on generation 1 / dual-stack from a client
 //	          on the generation of the installed version / IPv4 only / IPv6 only
@@ -50,7 +52,7 @@ import (
 
 const c13pPatience = 20 * time.Second
 
-var c13pKinds = []string{"hup", "hupgen", "hup2", "feed", "feedbad", "req-old", "req-cur", "req-v4", "req-v6"}
+var c13pKinds = []string{"hup", "hupgen", "hup2", "feed", "feedbad", "feedempty", "req-old", "req-cur", "req-v4", "req-v6"}
 
 type c13pCase struct {
 	Steps []string `json:"steps"` // the whole history since this sub-check took over the registrar
@@ -209,16 +211,42 @@ func (d *c13pDrv) request(kind string, gen uint32, where string) (*c13hViol, str
 	if key != "" {
 		return d.s.judge(where, key, msg)
 	}
+	if set == c13hRefused {
+		return nil, ""
+	}
 	if set < lo || set > hi {
 		return &c13hViol{"sighup:stale-set", fmt.Sprintf("%s: a %s registration (client generation %d) was answered from file version %d although version %d had already been served and version %d is the newest one fed", where, kind, gen, set, lo, hi)}, ""
 	}
+	d.raiseLo(set)
+	return nil, ""
+}
+
+func (d *c13pDrv) raiseLo(set int64) {
 	for {
 		cur := d.lo.Load()
 		if set <= cur || d.lo.CompareAndSwap(cur, set) {
-			break
+			return
 		}
 	}
-	return nil, ""
+}
+
+func (d *c13pDrv) feedEmpty() (*c13hViol, string) {
+	if d.w == nil {
+		return nil, ""
+	}
+	w := d.w
+	d.w = nil
+	d.s.mayEmpty.Store(true)
+	d.classes["fed-empty"] = true
+	content := c13hEmptyFiles[int(d.s.emptyN.Add(1))%len(c13hEmptyFiles)]
+	if _, err := w.Write([]byte(content)); err != nil {
+		w.Close()
+		return nil, "write pipe: " + err.Error()
+	}
+	if err := w.Close(); err != nil {
+		return nil, "close pipe: " + err.Error()
+	}
+	return nil, d.readerGone()
 }
 
 func (d *c13pDrv) feed(bad bool) (*c13hViol, string) {
@@ -256,14 +284,25 @@ func (d *c13pDrv) feed(bad bool) (*c13hViol, string) {
 		for dl := time.Now().Add(c13hLogWait); d.s.logs.count("failed to reload phantom subnets") == nErr && time.Now().Before(dl); {
 			time.Sleep(time.Millisecond)
 		}
-	} else if v > d.lo.Load() {
+	} else if v > d.lo.Load() || d.s.mayEmpty.Load() {
 		// the version that was read must be served now (eventually)
 		start := time.Now()
-		for d.lo.Load() < v {
-			if viol, h := d.request("dual", 1, "after a reload read file version "+fmt.Sprint(v)); viol != nil || h != "" {
-				return viol, h
+		for d.lo.Load() < v || d.s.mayEmpty.Load() {
+			lo0 := d.lo.Load()
+			set, key, msg := d.s.registerGen("dual", 1)
+			if key != "" {
+				return d.s.judge("after a reload read file version "+fmt.Sprint(v), key, msg)
 			}
-			if d.lo.Load() >= v {
+			if set != c13hRefused {
+				if set < lo0 || set > d.hi.Load() {
+					return &c13hViol{"sighup:stale-set", fmt.Sprintf("after a reload read file version %d a registration was answered from version %d (version %d had already been served)", v, set, lo0)}, ""
+				}
+				d.raiseLo(set)
+				if set >= v {
+					d.s.mayEmpty.Store(false) // a valid version is served again
+				}
+			}
+			if d.lo.Load() >= v && !d.s.mayEmpty.Load() {
 				break
 			}
 			if time.Since(start) > c13pPatience {
@@ -300,6 +339,8 @@ func (d *c13pDrv) act(kind string) (*c13hViol, string) {
 		return d.feed(false)
 	case "feedbad":
 		return d.feed(true)
+	case "feedempty":
+		return d.feedEmpty()
 	case "req-old":
 		if d.w != nil && d.genDisk > d.gen(d.lo.Load()) {
 			d.classes["old-client-during-generation-rollout"] = true
@@ -326,7 +367,7 @@ func (d *c13pDrv) finish() (*c13hViol, string) {
 			return v, h
 		}
 		if d.w == nil {
-			if d.lo.Load() == d.newest {
+			if d.lo.Load() == d.newest && !d.s.mayEmpty.Load() {
 				break
 			}
 			// the newest version was never read (its reload read garbage): the operator signals again
@@ -365,7 +406,7 @@ func TestVerif_C13_sighuppipe(t *testing.T) {
 		}
 		hist = c.Steps
 	} else {
-		rec.Require("sighup-while-reloading", "reload-for-sighup-that-arrived-during-a-reload", "request-during-reload", "old-client-during-generation-rollout", "generation-bump", "fed-valid", "fed-garbage", "concurrent-requests")
+		rec.Require("sighup-while-reloading", "reload-for-sighup-that-arrived-during-a-reload", "request-during-reload", "old-client-during-generation-rollout", "generation-bump", "fed-valid", "fed-garbage", "fed-empty", "concurrent-requests")
 		shard, _ := vh.Shard()
 		for _, x := range c13hDeBruijn(len(c13pKinds), vh.Pick(3, 4)) {
 			hist = append(hist, c13pKinds[x])
@@ -462,7 +503,7 @@ func TestVerif_C13_sighuppipe(t *testing.T) {
 			cl = append(cl, k)
 		}
 		d.classes = map[string]bool{}
-		nontriv := (busy || d.w != nil) && kind != "feed" && kind != "feedbad"
+		nontriv := (busy || d.w != nil) && kind != "feed" && kind != "feedbad" && kind != "feedempty"
 		rec.Case(nontriv, vh.Digest(c13pCase{Steps: hist[:i+1]}), c13pCase{Steps: append([]string{"..."}, hist[c13hMax0(i-4):i+1]...)}, cl...)
 		if report(i, kind, v, harness) {
 			return
